@@ -124,6 +124,19 @@ def run(chk):
             zeros(crit, "initial validation criterion history")
             if not same(loss, A.loss) or val != A.val0:
                 raise Violation("initial loss / validation", f"{loss} {val}", "the arguments of solve")
+            # the generators entering the loop are the ones given to solve, all advanced by the same number of draws (a
+            # draw made before the loop to learn the structure of the loss terms must be applied to every generator, or
+            # main and auxiliary batches of one iteration come from different draws)
+            from ..solveenv import GenToken
+            steps = {}
+            for f in ('data', 'param_data', 'obs_data'):
+                g = td.fields[f]
+                if not isinstance(g, GenToken):
+                    raise Violation(f"initial {f}", str(g)[:120], "the generator given to solve")
+                steps[f] = (g._name, g._step)
+            if len({v[1] for v in steps.values()}) != 1:
+                raise Violation("initial generators", "generators enter the loop after different numbers of draws: " +
+                                ", ".join(f"{f}: {n}+{k}" for f, (n, k) in steps.items()), "the same number of draws for every generator")
             return "iteration 0, params = last = best = init_params, optimizer state, zero histories of length n_iter"
         chk.run("C07.R3", f"{SOLVE}:solve (initial carry)", cfg, go_init, construct="initial carry")
 
